@@ -33,7 +33,8 @@ m = {
         {"name": "V", "path": "/verif/lib/verusrun.py", "serves_properties": sorted(p for p, c in CLAIMS.items() if "V" in c["engine"]), "kind_free_text": "Verus on functions extracted mechanically from /repo on every run (tools/vx + lib/vx.py), contracts in /verif/contracts/*.toml"},
         {"name": "K", "path": "/verif/lib/kanirun.py", "serves_properties": sorted(p for p, c in CLAIMS.items() if "K" in c["engine"]), "kind_free_text": "Kani/CBMC on an add-only overlay copy of /repo, harnesses and in-place contracts in /verif/kani/"},
         {"name": "T", "path": "/verif/lib/engine_t.py", "serves_properties": sorted(p for p, c in CLAIMS.items() if "T" in c["engine"]), "kind_free_text": "recursion-measure obligations generated from the call graph of the real source, discharged by z3"},
-        {"name": "S", "path": "/verif/lib/engine_s.py", "serves_properties": sorted(p for p, c in CLAIMS.items() if "S" in c["engine"]), "kind_free_text": "auto-trait obligations discharged by rustc"},
+        {"name": "F", "path": "/verif/lib/engine_f.py", "serves_properties": sorted(p for p, c in CLAIMS.items() if "F" in c["engine"]), "kind_free_text": "frame audits: syntactic inventories of the working tree (sites minting the safe mark; instructions emitted without a span) against an audited list; not proofs"},
+        {"name": "S", "path": "/verif/lib/engine_s.py", "serves_properties": sorted(p for p, c in CLAIMS.items() if "S" in c["engine"]), "kind_free_text": "obligations discharged by rustc: auto-trait bounds; frame obligations (the exit-bearing prefix of a &mut self function re-typed to a shared borrow)"},
     ],
     "checks": checks,
     "notes": "Contract-based deductive verification of the real code; see DESIGN.md. exit 2 = undecided (lost anchor, unsupported construct, rlimit), never a VIOLATION line.",
